@@ -5,6 +5,8 @@ guarded by its bound check; sqrt_price / tick_spacing / mint order are checked a
 initialisation and the initial tick is the tick of the initial price; adaptive-fee constants are stored only behind validate_constants,
 whose atoms are the published rules; the mint admission table per extension and
 badge state; badge identity check; admission must-pass before pool/reward init.
+Also decided: parameter-changing instructions tie the accounts they validate against and write to (C15.R3
+instances re-decided here);
 Not decided: reachability of out-of-bound prices through swap arithmetic."""
 from analysis import cfg, writes, atoms as A, preach
 from analysis.ir import callee_path, op_place, AnchorMissing
